@@ -58,7 +58,7 @@ func init() {
 		Require: func(string) map[string]int64 {
 			return map[string]int64{
 				"accept": 2000, "reject": 10000, "reject:x>=p": 100, "reject:off-curve": 500, "reject:alias-x+p": 10, "reject:alias-y+p": 5,
-				"accept:identity": 3, "accept:compressed": 500, "accept:uncompressed": 500, "wrong-form": 500, "hex:uppercase": 20, "hex:invalid": 20, "seq": 300, "seq-steps": 2000, "seq:repeat-after-mutation": 300, "class:near-miss": 100, "class:steered-y2": 100, "class:steered-x3": 100, "class:other-curve": 1000, "class:receiver-internals": 150, "class:text-form": 80,
+				"accept:identity": 3, "accept:compressed": 500, "accept:uncompressed": 500, "wrong-form": 500, "hex:uppercase": 20, "hex:invalid": 20, "seq": 300, "seq-steps": 2000, "seq:repeat-after-mutation": 300, "class:near-miss": 100, "class:steered-y2": 100, "class:steered-x3": 100, "class:steered-y": 100, "class:steered-x": 100, "class:other-curve": 1000, "class:receiver-internals": 150, "class:text-form": 80,
 			}
 		},
 	})
@@ -269,6 +269,14 @@ func c03Generate(c *mon.Ctx) {
 		}
 	}
 
+	// 5e. a valid encoding with one byte too many, every value, in front and behind
+	for _, enc := range [][]byte{oracle.EncC(g), oracle.EncU(g), {0}} {
+		for b := 0; b < 256; b++ {
+			emitBytes(append([]byte{byte(b)}, enc...), "one-byte-extra")
+			emitBytes(append(append([]byte{}, enc...), byte(b)), "one-byte-extra")
+		}
+	}
+
 	// 5d. the textual form of valid encodings handed to the byte decoders
 	for _, enc := range [][]byte{oracle.EncC(g), oracle.EncU(g), {0}, oracle.EncC(pool.NonInf[9].P)} {
 		h := mon.H(enc)
@@ -302,12 +310,17 @@ func c03Generate(c *mon.Ctx) {
 	// 6b. valid points whose x^3 resp. y^2 = x^3+7 sit on structured STORED values (must be accepted), and near misses:
 	// (x, y) whose stored y^2 differs from the stored x^3+7 in exactly one bit (must be rejected)
 	for _, t := range gen.DecodeTargets() {
-		for k, f := range []func(*big.Int) (oracle.Pt, bool){gen.PointWithStoredY2, gen.PointWithStoredX3} {
+		for k, f := range []func(*big.Int) (oracle.Pt, bool){gen.PointWithStoredY2, gen.PointWithStoredX3, gen.PointWithStoredY, gen.PointWithStoredX} {
 			if p, ok := f(t); ok {
-				cl := []string{"steered-y2", "steered-x3"}[k]
+				cl := []string{"steered-y2", "steered-x3", "steered-y", "steered-x"}[k]
 				emitBytes(oracle.EncC(p), cl)
 				emitBytes(oracle.EncU(p), cl)
 				emitCoords(p.X, p.Y, cl)
+
+				if k >= 2 {
+					// both parities: one of them is the root the square-root routine returns, the other its negation
+					emitBytes(oracle.EncC(oracle.Neg(p)), cl)
+				}
 			}
 		}
 	}
@@ -661,7 +674,7 @@ func c03Run(c *mon.Ctx, csAny any) {
 	c.Eval(1)
 
 	switch cs.Class {
-	case "near-miss", "steered-y2", "steered-x3", "other-curve", "receiver-internals", "text-form":
+	case "near-miss", "steered-y2", "steered-x3", "steered-y", "steered-x", "other-curve", "receiver-internals", "text-form":
 		c.Count("class:" + cs.Class)
 	}
 
